@@ -256,4 +256,63 @@ theorem HomesDone_mono (c : Cfg) (hc : c.posix = false) (f2 f3 : FS) (hi2 : FS.I
     obtain ⟨fs1, h1, h2, h3⟩ := h
     exact ⟨fs1, h1, HomeDone_mono c hc fs f2 f3 u hi2 he h2, ih fs1 h3⟩
 
+/-- every node with an index in `[n, fs.nodes.length)` is a root-owned directory of mode `mode` -/
+structure NewDirs (n : Nat) (mode : Nat) (fs : FS) : Prop where
+  h : ∀ j : Nat, n ≤ j → j < fs.nodes.length →
+    (fs.node j).dir = true ∧ (fs.node j).mode = mode ∧ (fs.node j).uid = 0 ∧ (fs.node j).gid = 0
+
+theorem NewDirs.push {n mode : Nat} {fs fs' : FS} (h1 : NewDirs n mode fs) (he : EF fs fs')
+    (h2 : NewDirs fs.nodes.length mode fs') : NewDirs n mode fs' := by
+  refine ⟨fun j hn hj => ?_⟩
+  by_cases hlt : j < fs.nodes.length
+  · have fr := he.frame j hlt
+    have := h1.h j hn hlt
+    exact ⟨fr.2.2.2.trans this.1, fr.1.trans this.2.1, fr.2.1.trans this.2.2.1, fr.2.2.1.trans this.2.2.2⟩
+  · exact h2.h j (by omega) hj
+
+theorem newDirs_create {fs : FS} (d : Nat) (b : Name) (mode : Nat) (hd : (fs.node d).dir = true) :
+    NewDirs fs.nodes.length mode (fs.create d b (newDir mode)).1 := by
+  refine ⟨fun j hn hj => ?_⟩
+  rw [length_create] at hj
+  have : j = fs.nodes.length := by omega
+  subst this
+  rw [node_create_new fs d b _ hd]
+  exact ⟨rfl, rfl, rfl, rfl⟩
+
+theorem mkdirAllLoop_new (c : Cfg) (mode : Nat) :
+    ∀ (rest : List Name) (fs : FS) (at_ : Pos) (tr : List Name),
+      FS.Inv fs → (fs.node at_.ino).dir = true →
+      NewDirs fs.nodes.length mode (mkdirAllLoop c mode rest fs at_ tr).1 := by
+  intro rest
+  induction rest with
+  | nil => intro fs at_ tr _ _; exact ⟨fun j h1 h2 => by simp [mkdirAllLoop] at h2; omega⟩
+  | cons part rest ih =>
+    intro fs at_ tr hi hd
+    have hempty : NewDirs fs.nodes.length mode fs := ⟨fun j h1 h2 => by omega⟩
+    unfold mkdirAllLoop
+    cases hl : fs.lookup at_.ino part with
+    | some n =>
+      simp only []
+      repeat' split
+      all_goals (try exact hempty)
+      all_goals (apply ih _ _ _ hi; simp_all)
+    | none =>
+      have hi1 := hi.create at_.ino part (newDir mode) hd rfl
+      have hn1 := newDirs_create (fs := fs) at_.ino part mode hd
+      simp only []
+      repeat' split
+      all_goals (try exact hn1)
+      all_goals (refine hn1.push (mkdirAllLoop_ef c mode _ _ _ _ hi1 ?_) (ih _ _ _ hi1 ?_) <;> simp_all)
+
+/-- **parents**: the directories `MkdirAll(p, perm)` makes are all root-owned with mode `dir|perm` -/
+theorem mkdirAll_new (c : Cfg) (fs : FS) (p : Text) (perm : Nat) (hi : FS.Inv fs) :
+    NewDirs fs.nodes.length (modeDir ||| perm) (mkdirAll c fs p perm).1 := by
+  have hempty : NewDirs fs.nodes.length (modeDir ||| perm) fs := ⟨fun j h1 h2 => by omega⟩
+  unfold mkdirAll
+  simp only []
+  split
+  · exact hempty
+  · have := mkdirAllLoop_new c (modeDir ||| perm) ((parts p).filter (· ≠ dot)) fs { ino := 0 } [] hi hi.root
+    split <;> simp_all
+
 end Apko.Accounts
